@@ -29,13 +29,19 @@ let choice s = let n = int_of_string s in if n < 0 then None else Some (nat_of_i
 
 exception Stop
 
+(* a leading '!' marks an unobserved op: only its own return value is printed *)
+let strip_quiet quiet op =
+  if String.length op > 0 && op.[0] = '!' then (quiet := true; String.sub op 1 (String.length op - 1))
+  else (quiet := false; op)
+
 (* ---- single-valued maps: a step function over 'st plus renderers ---- *)
 let run_smap (type st) (step : st -> coq_Z mop -> st * coq_Z mout) (init : st)
     (dump : (st -> string) option) (backward : (st -> string) option) ops =
   let st = ref init in
   let out = ref [] in
   let call o = let (s', r) = step !st o in st := s'; r in
-  let obs ret =
+  let quiet = ref false in
+  let obs ret = if !quiet then ret else
     let len = match call MLen with RLen n -> z_to_string n | _ -> "?" in
     let keys = match call MKeys with RKeys l -> zs ";" l | ROutOfFuel -> "outoffuel" | _ -> "?" in
     let vals = match call MValues with RVals l -> zs ";" l | ROutOfFuel -> "outoffuel" | _ -> "?" in
@@ -44,6 +50,7 @@ let run_smap (type st) (step : st -> coq_Z mop -> st * coq_Z mout) (init : st)
     ret ^ "/" ^ len ^ "/" ^ keys ^ "/" ^ vals ^ "/" ^ d ^ b in
   (try
     List.iter (fun op ->
+      let op = strip_quiet quiet op in
       match split_on ':' op with
       | ["p"; k; v; ch] ->
         (match call (MPut (z_of_string k, z_of_string v, choice ch)) with
@@ -82,13 +89,15 @@ let run_mmap (type st) (step : st -> coq_Z mmop -> st * coq_Z mmout) (init : st)
   let st = ref init in
   let out = ref [] in
   let call o = let (s', r) = step !st o in st := s'; r in
-  let obs ret =
+  let quiet = ref false in
+  let obs ret = if !quiet then ret else
     let len = match call MMLen with MRLen n -> z_to_string n | _ -> "?" in
     let keys = match call MMKeys with MRKeys l -> zs ";" l | _ -> "?" in
     let vals = match call MMValues with MRVals l -> String.concat ";" (List.map inner l) | _ -> "?" in
     let d = match dump with Some f -> f !st | None -> "" in
     ret ^ "/" ^ len ^ "/" ^ keys ^ "/" ^ vals ^ "/" ^ d in
   List.iter (fun op ->
+    let op = strip_quiet quiet op in
     match split_on ':' op with
     | ["P"; k; vs; ch] ->
       let vs = if vs = "" then [] else List.map z_of_string (split_on '.' vs) in
@@ -110,14 +119,18 @@ let run_set ops =
   let st = ref [] in
   let out = ref [] in
   let call o = let (s', r) = set_step !st o in st := s'; r in
+  let quiet = ref false in
   List.iter (fun op ->
+    let op = strip_quiet quiet op in
     let ret = match split_on ':' op with
       | ["a"; k] -> ignore (call (SAdd (z_of_string k))); "unit"
       | ["d"; k] -> ignore (call (SDelete (z_of_string k))); "unit"
       | ["e"; k] -> (match call (SExist (z_of_string k)) with SRBool b -> b2s b | _ -> "?")
       | _ -> "badop" in
-    let keys = match call SKeys with SRKeys l -> zs ";" l | _ -> "?" in
-    out := (ret ^ "/" ^ keys) :: !out) ops;
+    if !quiet then out := ret :: !out
+    else
+      let keys = match call SKeys with SRKeys l -> zs ";" l | _ -> "?" in
+      out := (ret ^ "/" ^ keys) :: !out) ops;
   String.concat "|" (List.rev !out)
 
 let z0 = Z0
